@@ -106,11 +106,8 @@ Lemma pointer_ok_not_protected p t :
   pointer_ok p = true -> first_tok p = Some t -> t <> "publicKey" /\ t <> "service".
 Proof.
   unfold pointer_ok. intros H Ht.
-  apply andb_prop in H. destruct H as [Hr H]. apply andb_prop in H. destruct H as [Hs Hk].
-  apply negb_true_iff in Hs. apply negb_true_iff in Hk.
-  split.
-  - apply (pointer_ok_first_tok p t "publicKey"); auto.
-  - apply (pointer_ok_first_tok p t "service"); auto.
+  apply andb_prop in H. destruct H as [_ H]. change (pointer_first p) with (first_tok p) in H. rewrite Ht in H.
+  apply andb_prop in H. destruct H as [Hs Hk]. apply negb_true_iff in Hs, Hk. apply String.eqb_neq in Hs, Hk. auto.
 Qed.
 
 (* ---- operations touch the root object only at the first token ---- *)
